@@ -18,11 +18,24 @@ use serde_json::json;
 pub const SITE: &str = "smt::serialize_cmd (serialize_expr / serialize_type / escape_smt_identifier)";
 
 /// symbol-name classes; `{}` is replaced by a per-symbol unique suffix
-pub const NAME_CLASSES: [&str; 12] =
-    ["{}", "x {}", "9{}", "{}#b", "a:{}", "ä{}", "{}@0", "{}.b!c", "$t{}", "{} (", "a;{}", "\"{}\""];
+pub const NAME_CLASSES: [&str; 15] =
+    ["{}", "x {}", "9{}", "{}#b", "a:{}", "ä{}", "{}@0", "{}.b!c", "$t{}", "{} (", "a;{}", "\"{}\"", "<#b>", "<#x>", "<d.d>"];
 
+/// the last three classes are names spelled like SMT-LIB literals (binary, hex, decimal); they are
+/// legal symbols once quoted and unique per (symbol index, type)
 pub fn namer(class: usize) -> impl Fn(u8, Ty) -> String {
-    move |i: u8, t: Ty| NAME_CLASSES[class % NAME_CLASSES.len()].replace("{}", &shapes::sym_name(i, t))
+    move |i: u8, t: Ty| {
+        let (a, b) = match t {
+            Ty::BV(w) => (w, 0),
+            Ty::Arr(x, y) => (x + 1000, y),
+        };
+        match NAME_CLASSES[class % NAME_CLASSES.len()] {
+            "<#b>" => format!("#b{:03b}{:012b}{:08b}", i, a, b),
+            "<#x>" => format!("#x{:x}{:04x}{:02x}", i, a, b),
+            "<d.d>" => format!("{}.{}{:03}", i, a, b),
+            c => c.replace("{}", &shapes::sym_name(i, t)),
+        }
+    }
 }
 
 pub fn generate(tier: Tier, seed: u64) -> Vec<Sh> {
